@@ -740,6 +740,39 @@ def run_check(tier, seed):
 
     # ======== (3) normalize: value and idempotence; print / parse
     conds = Conditions()
+    # print / parse judged by VALUE on expressions built directly (not parser-shaped): constants that are negative and / or
+    # fractions as the left and right operand of every binary operator, and under a unary minus; what is printed must denote,
+    # after parsing, what was built (the structure may differ: Const(-2) against -Const(2))
+    from fractions import Fraction as _Fr
+    from integral.expr import Const as _Const, Op as _Op, Var as _Var
+    xv_ = _Var('x')
+    n_pp = 0
+    for cval in (_Fr(-1, 2), _Fr(-3, 2), _Fr(1, 2), _Fr(3, 4), -2, 2, -1):
+        cst = _Const(cval)
+        for other in (xv_, _Op('+', xv_, _Const(1)), _Op('*', _Const(2), xv_)):
+            for op_ in ('+', '-', '*', '/', '^'):
+                for e_ in (_Op(op_, other, cst), _Op(op_, cst, other), _Op('-', _Op(op_, other, cst)), _Op(op_, _Op('-', other), cst)):
+                    try:
+                        s_ = str(e_)
+                        e_back = iparser.parse_expr(s_)
+                    except RecursionError:
+                        raise
+                    except Exception as ex:
+                        run.violation('property', 'printed expression does not parse back (%s): %s' % (type(ex).__name__, s_ if 's_' in dir() else repr(e_)),
+                                      dict(original=repr(e_)), key='C19:print-parse-exc')
+                        continue
+                    n_pp += 1
+                    for xval in (mpf('1.3'), mpf('2.6')):
+                        try:
+                            v1_, v2_ = stable_value(e_, {'x': xval}), stable_value(e_back, {'x': xval})
+                        except Exception:
+                            continue
+                        if not close(v1_, v2_):
+                            run.violation('property', 'print then parse changes the value: %s is printed as %s, which reads as %s (at x = %s: %s against %s)' % (
+                                              repr(e_), s_, repr(e_back), xval, mpmath.nstr(v1_, 8), mpmath.nstr(v2_, 8)),
+                                          dict(original=repr(e_), printed=s_, reparsed=repr(e_back), x=str(xval)), key='C19:print-parse-value')
+                            break
+    run.stat('print_parse_value_cases:%d' % n_pp)
     # corpus first: the recorded finding (a base next to a symbolic power of the same base) and relatives
     corpus3 = [iparser.parse_expr(t_) for t_ in ('x / 3 * x ^ x + 1', 'x * x ^ x', 'x ^ x * x', 'a * x ^ a * x')]
     for k3 in range(len(corpus3) + 150 * scale):
